@@ -48,6 +48,10 @@ THEOREMS = [
     "Scenic.C03.pointset_inter_guarded_uniform",
     "Scenic.C03.pointset_inter_true_membership",
     "Scenic.C03.pointset_inter_containsPoint_leaks",
+    "Scenic.C03.evalInstr_contains",
+    "Scenic.C03.composed_true_membership",
+    "Scenic.C03.nested_difference_membership",
+    "Scenic.C03.composed_footprint_membership_leaks",
     "Scenic.C03.segments_mass",
     "Scenic.C03.segments_uniform",
     "Scenic.C03.segments_overlap_doubled",
@@ -502,7 +506,7 @@ def gen_discrete_case(rng, RG):
     shape = rng.choice(["ps", "grid", "ps&ps", "ps&ps&ps", "ps|ps", "ps|ps|ps", "ps-ps", "ps&cont", "cont&ps", "ps-cont",
                         "grid&ps", "ps&grid", "grid|ps", "grid-ps", "ps-grid", "I3", "U3", "I(U,ps)", "I(ps,U)", "D(I,ps)",
                         "D(ps,I)", "I(D,ps)", "D(ps,U)", "I(ball,ps)", "D(ball,cont)", "ps|cont", "U(ps,grid,ps)", "I(ps,cont,ps)",
-                        "D(U,ps)"])
+                        "D(U,ps)", "I(ps,U(ps,cont))", "D(ps,I(ps,cont))", "I(ps,D(ps,cont))", "D(ps,D(cont,ps))"])
     P = lambda n="ps", **k: gen_pointset(rng, RG, n, **k)
     G = lambda: gen_grid(rng, RG)
     C = lambda **k: gen_opaque(rng, RG, **k)[1]
@@ -564,6 +568,15 @@ def gen_discrete_case(rng, RG):
         return shape, RG.IntersectionRegion(P(nmax=12), C(), P("q", nmax=12))
     if shape == "D(U,ps)":
         return shape, RG.DifferenceRegion(RG.UnionRegion(P(), P("q")), P("r"))
+    PLANAR = ["circle", "sector", "sector_wide", "rect", "polygon", "box", "spheroid"]
+    if shape == "I(ps,U(ps,cont))":
+        return shape, RG.IntersectionRegion(P(nmax=12), RG.UnionRegion(P("q", nmax=3), C(kinds=PLANAR)))
+    if shape == "D(ps,I(ps,cont))":
+        return shape, RG.DifferenceRegion(P(nmax=12), RG.IntersectionRegion(P("q", nmax=12), C(kinds=PLANAR)))
+    if shape == "I(ps,D(ps,cont))":
+        return shape, RG.IntersectionRegion(P(nmax=12), RG.DifferenceRegion(P("q", nmax=12), C(kinds=PLANAR)))
+    if shape == "D(ps,D(cont,ps))":
+        return shape, RG.DifferenceRegion(P(nmax=12), RG.DifferenceRegion(C(kinds=PLANAR), P("q", nmax=5)))
     raise ValueError(shape)
 
 
@@ -613,16 +626,6 @@ def classify(RG, default, what, res=None, A=None, B=None, point=None, msg=""):
         pol = B if vol is A else A
         if mesh_slice_incomplete(vol, pol):
             return "mesh-slice-incomplete"
-    if what == "membership" and point is not None and isinstance(res, (RG.IntersectionRegion, RG.UnionRegion, RG.DifferenceRegion)) \
-            and getattr(res, "sampler", None) is None:
-        ops = res.regions if hasattr(res, "regions") else (res.regionA, res.regionB)
-        for o in ops:
-            if isinstance(o, (RG.IntersectionRegion, RG.UnionRegion, RG.DifferenceRegion)):
-                try:
-                    if bool(o._trueContainsPoint(vec(point))) != set_member(o, RG, point):
-                        return "nested-composition-footprint-membership"
-                except Exception:
-                    pass
     return default
 
 
@@ -928,6 +931,17 @@ def regression_cases(RG):
         RG.SectorRegion(Vector(0.44, 2.13, 0), 3.3, 2.964490376247597, 5.5))
     out.append(("regress:I(ps&sector5.5,ps)", RG.IntersectionRegion(wide, RG.PointSetRegion("q", [(2, 2, 0), (1, 3, 0), (5, 5, 0)]))))
     out.append(("regress:D(ps&sector5.5,ps)", RG.DifferenceRegion(wide, RG.PointSetRegion("q", [(3, 2, 0), (5, 5, 0)]))))
+    # composed regions as operands (9c3fab32): `_trueContainsPoint` of Intersection/Union/DifferenceRegion is structural,
+    # not the z-blind footprint test; planar leaves at z=1, candidate points at z=0 under them
+    nested = RG.PointSetRegion("ps", [(2, 0, 0), (1, 1, 0), (1, 3, 0), (2, 2, 0), (3, 1, 1), (1, 0, 0), (3, 2, 0), (2, 3, 1)]).intersect(
+        RG.SectorRegion(Vector(2.21, 0.71, 1), 2.45, -1.99, 5.5))
+    out.append(("regress:I(ps&sector(z=1),ps)", RG.IntersectionRegion(nested, RG.PointSetRegion("q", [(3, 2, 0), (3, 3, 1)]))))
+    sq1 = RG.PolygonalRegion([(-1, -1), (2.5, -1), (2.5, 2.5), (-1, 2.5)], z=1)
+    psq = lambda n: RG.PointSetRegion(n, [(0, 0, 0), (0, 0, 1), (1, 1, 1), (1, 1, 0), (2, 2, 0), (9, 9, 1)])
+    out.append(("regress:I(ps,U(ps,polygon z=1))", RG.IntersectionRegion(psq("a"), RG.UnionRegion(RG.PointSetRegion("b", [(9, 9, 1)]), sq1))))
+    out.append(("regress:D(ps,I(ps,polygon z=1))", RG.DifferenceRegion(psq("a"), RG.IntersectionRegion(psq("b"), sq1))))
+    out.append(("regress:D(ps,D(polygon z=1,ps))", RG.DifferenceRegion(psq("a"), RG.DifferenceRegion(sq1, RG.PointSetRegion("b", [(1, 1, 1)])))))
+    out.append(("regress:I(ps,D(ps,rect z=1))", RG.IntersectionRegion(psq("a"), RG.DifferenceRegion(psq("b"), RG.RectangularRegion(Vector(0.5, 0.5, 1), 0.3, 4, 4)))))
     out.append(("witness:union-overlap", RG.UnionRegion(RG.PointSetRegion("a", [(1, 0), (2, 0), (3, 0)]), RG.PointSetRegion("b", [(3, 0), (4, 0)]))))
     return out
 
@@ -1361,8 +1375,7 @@ class Leaf:
         RG, reg = self.RG, self.reg
         x, y, z = (F(c) for c in p)
         if isinstance(reg, RG.GridRegion) or isinstance(reg, RG.PointSetRegion):
-            if isinstance(reg, RG.GridRegion):
-                return bool(reg.containsPoint(vec(p)))
+            # a grid is the point set of its free-cell centres (GridRegion._trueContainsPoint since 12542374), not its cells
             return any(pkey(q) == pkey(p) for q in reg.points)
         if isinstance(reg, RG.CircularRegion) or isinstance(reg, RG.SectorRegion):
             if z != F(reg.center.z):
@@ -1483,9 +1496,7 @@ class Leaf:
     def mask(self, pts):
         numpy, RG, reg = self.np, self.RG, self.reg
         pts = numpy.asarray(pts, dtype=float)
-        if isinstance(reg, RG.GridRegion):
-            return numpy.array([bool(reg.containsPoint(vec(p))) for p in pts])
-        if isinstance(reg, RG.PointSetRegion):
+        if isinstance(reg, RG.PointSetRegion):      # grids included: the point set of the free-cell centres
             d, _ = reg.kdTree.query(pts)
             return d <= reg.tolerance
         if isinstance(reg, RG.CircularRegion) or isinstance(reg, RG.SectorRegion):
@@ -1931,11 +1942,65 @@ def comp_tag(op, a, b, res):
     return f"{op}:{type(a).__name__}:{type(b).__name__}->{type(res).__name__}"
 
 
+# regression corpus of (S): ordered pairs whose specialised handlers carried a repaired defect or a witness of the theorems;
+# (kind A, kind B, operation, z of the planar operands or None = drawn).  They run first and outside the time box.
+S_MUST = [("polygon_holes", "polyline", "intersect", 1.5), ("polygon_holes", "polyline", "difference", 1.5),
+          ("polyline", "polygon_holes", "difference", 1.5), ("polyline", "polygon_holes", "intersect", 1.5),
+          ("multipolygon", "polyline", "intersect", 1.5), ("polygon_holes", "polyline", "intersect", 0),
+          ("pointset", "polyline", "intersect", None), ("pointset", "rect", "intersect", 1.5), ("pointset", "multipolygon", "intersect", 1.5),
+          ("polyline", "polyline", "union", None), ("polygon_holes", "multipolygon", "union", None), ("path", "path", "union", None),
+          ("rect", "circle", "union", None), ("circle", "sector", "difference", None), ("sector", "circle", "difference", None),
+          ("pointset", "mesh", "intersect", None), ("mesh", "pointset", "intersect", None),
+          ("polyline", "box", "union", None), ("box", "voxel", "union", None), ("polyline", "voxel", "intersect", None),
+          ("surface", "polygon_holes", "union", None), ("polyline", "surface", "intersect", None), ("path", "box", "intersect", None),
+          ("box", "spheroid", "union", None), ("polygon_holes", "box", "intersect", None)]
+
+
+def run_pair(ctx, RG, rng, ka, kb, op, z, n):
+    """build A.op(B) and check it; returns (accepted, found)"""
+    try:
+        A, B = make_pair(rng, RG, ka, kb, z)
+        res = getattr(A, op)(B)
+    except Exception as e:
+        ctx.hist("S_composition", f"{op}:{ka}:{kb}:not-accepted:{type(e).__name__}")
+        return False, False
+    desc = f"{describe(A, RG)}.{op}({describe(B, RG)})"[:300]
+    rep = {"kind": "composition", "op": op, "a": rebuild_spec(A, RG), "b": rebuild_spec(B, RG), "n": n}
+    if isinstance(res, RG.EmptyRegion):
+        ctx.hist("S_composition", f"{op}:empty")
+        return True, check_empty(ctx, RG, A, B, op, desc, rep)
+    ctx.hist("S_composition", f"{op}->{type(res).__name__}")
+    return True, check_composition(ctx, RG, A, B, op, res, desc, rep, n)
+
+
+def check_empty(ctx, RG, A, B, op, desc, rep):
+    """A.op(B) = nowhere: the composed set must have no measure (an independent sampler finds no point of it)"""
+    import numpy
+    truth = Comp({"intersect": "inter", "union": "union", "difference": "diff"}[op], [mirror(A, RG), mirror(B, RG)])
+    try:
+        if truth.dim in (None, 0):
+            return False
+        ref = truth.propose(numpy.random.default_rng(ctx.rng.getrandbits(32)), 400)
+    except Exception:
+        return False
+    if len(ref) >= 200:
+        return bool(ctx.violation(f"unreachable:{op}:{type(A).__name__}:{type(B).__name__}->EmptyRegion",
+                                  f"{desc} is the empty region although the composed set has positive measure "
+                                  f"(an independent sampler found {len(ref)} points in it, e.g. {ref[0].tolist()})", rep))
+    return False
+
+
 def direct_oracle(ctx, RG):
     rng = ctx.rng
     n = ctx.budget(400, 800)
     found = False
-    deadline = time.time() + ctx.budget(150, 700)
+    # ---- regression corpus and theorem witnesses first: never cut off by the time box
+    t0 = time.time()
+    for (ka, kb, op, z) in S_MUST:
+        ok, f = run_pair(ctx, RG, rng, ka, kb, op, z, n)
+        found |= f
+    ctx.extra["S_must_pairs"] = len(S_MUST)
+    ctx.extra.setdefault("phase_seconds", {})["S must-pairs"] = round(time.time() - t0, 1)
     # ---- every kind on its own
     for kind in S_KINDS + ["polygon", "polygon_earcut"]:
         for rep_i in range(ctx.budget(1, 4)):
@@ -1948,40 +2013,22 @@ def direct_oracle(ctx, RG):
             nn = 4 * n if kind == "polygon_earcut" else n
             rep = {"kind": "region", "build": rebuild_spec(reg, RG), "n": nn}
             found |= check_region(ctx, RG, reg, repr(reg)[:160], rep, nn, f"{type(reg).__name__}")
-    # ---- ordered pairs x {intersect, union, difference}
+    # ---- random ordered pairs x {intersect, union, difference}: time-boxed (a cut-off is reported as a note, never as a failure)
+    deadline = time.time() + ctx.budget(60, 700)
     triples = [(a, b, op) for a in S_KINDS for b in S_KINDS for op in ("intersect", "union", "difference")]
     rng.shuffle(triples)
-    must = [("polyline", "polyline", "union"), ("polygon_holes", "multipolygon", "union"), ("surface", "polygon_holes", "union"),
-            ("path", "path", "union"), ("box", "voxel", "union"), ("pointset", "rect", "intersect"), ("pointset", "multipolygon", "intersect"),
-            ("polyline", "surface", "intersect"), ("path", "box", "intersect"), ("circle", "sector", "difference"),
-            ("box", "spheroid", "union"), ("polygon_holes", "box", "intersect"), ("rect", "circle", "union"),
-            ("polyline", "voxel", "intersect"), ("polyline", "box", "union"), ("pointset", "polyline", "intersect"),
-            ("polygon_holes", "polyline", "intersect"), ("sector", "circle", "difference")]
-    order = must + [t for t in triples if t not in must]
-    limit = ctx.budget(38, len(order))
+    limit = ctx.budget(10, len(triples))
     done = 0
-    for (ka, kb, op) in order:
+    for (ka, kb, op) in triples:
         if done >= limit or time.time() > deadline:
             break
-        try:
-            z = rng.choice([0, 0, 1.5])
-            A, B = make_pair(rng, RG, ka, kb, z)
-            res = getattr(A, op)(B)
-        except Exception as e:
-            ctx.hist("S_composition", f"{op}:{ka}:{kb}:not-accepted:{type(e).__name__}")
-            continue
-        done += 1
-        if isinstance(res, RG.EmptyRegion):
-            ctx.hist("S_composition", f"{op}:empty")
-            continue
-        ctx.hist("S_composition", f"{op}->{type(res).__name__}")
-        desc = f"{describe(A, RG)}.{op}({describe(B, RG)})"[:300]
-        rep = {"kind": "composition", "op": op, "a": rebuild_spec(A, RG), "b": rebuild_spec(B, RG), "n": n}
-        found |= check_composition(ctx, RG, A, B, op, res, desc, rep, n)
+        ok, f = run_pair(ctx, RG, rng, ka, kb, op, None, n)
+        found |= f
+        done += ok
     if done < limit:
-        ctx.notes.append(f"S stopped after {done} of {limit} compositions (time box); the rest was not explored in this run")
-    ctx.extra["S_compositions_checked"] = done
-    ctx.extra["S_compositions_total"] = len(order)
+        ctx.notes.append(f"S stopped after {done} of {limit} random compositions (time box); the regression pairs and the kinds were all explored")
+    ctx.extra["S_compositions_checked"] = done + len(S_MUST)
+    ctx.extra["S_compositions_total"] = len(triples)
     return found
 
 
@@ -1994,6 +2041,8 @@ def make_pair(rng, RG, ka, kb, z):
             r = RG.PolylineRegion(polyline=r.lineString, orientation=None)
         elif isinstance(r, RG.PathRegion):
             r = RG.PathRegion(polylines=[[tuple(r.vert_to_vec[a]), tuple(r.vert_to_vec[b])] for a, b in r.edges], orientation=None)
+        elif z is not None and type(r) is RG.PolygonalRegion:
+            r = RG.PolygonalRegion(polygon=r.polygons, z=z)     # regression pairs fix the height of the polygon
         return r
     return one(ka), one(kb)
 
